@@ -28,6 +28,7 @@ type cnStep struct {
 	Chans     []bool `json:"chans"` // closed?
 	Delivered int    `json:"delivered"`
 	Panic     bool   `json:"panic"`
+	Held      []bool `json:"held"` // "heof" only: the channels' state while the handler was still running
 }
 type cnCase struct {
 	Sched []string `json:"sched"`
@@ -96,6 +97,19 @@ func isClosed(ch <-chan struct{}) bool {
 	}
 }
 
+// bits of the End-to-End id that script the handler: 0xC0000000 request CloseNotify,
+// 0x20000000 then panic, 0x10000000 block until the test releases it
+const (
+	cnAsk   = 0xC0000000
+	cnPanic = 0x20000000
+	cnHold  = 0x10000000
+)
+
+func cnGoodX(id uint32, bits uint32) []byte {
+	h := diam.Header{Version: 1, MessageLength: 20, CommandFlags: 0x80, CommandCode: 272, ApplicationID: 4, HopByHopID: id, EndToEndID: bits | id}
+	return h.Serialize()
+}
+
 func cnGood(id uint32, askCN bool) []byte {
 	e2e := id
 	if askCN {
@@ -119,6 +133,9 @@ func runCN(id int, c *cnCase, via string) cnLine {
 		if ev == "mm" || ev == "m1" || ev == "m2" || ev == "xbig" {
 			l.Conform = false // the model's chunks are whole messages
 		}
+		if ev == "mp" || ev == "mhp" || ev == "heof" {
+			l.Conform = false // handler panics and handlers running while the peer disconnects are not in the model
+		}
 	}
 	base, _ := diamGoroutines()
 	mc := memnet.NewConn()
@@ -141,6 +158,8 @@ func runCN(id int, c *cnCase, via string) cnLine {
 		}
 	}()
 	var dconn diam.Conn
+	holding := make(chan struct{}, 4)
+	release := make(chan struct{})
 	gotConn := make(chan struct{}, 1)
 	mux.HandleFunc("ALL", func(dc diam.Conn, m *diam.Message) {
 		defer func() {
@@ -164,6 +183,13 @@ func runCN(id int, c *cnCase, via string) cnLine {
 			mu.Lock()
 			chans = append(chans, ch)
 			mu.Unlock()
+		}
+		if m.Header.EndToEndID&cnHold != 0 {
+			holding <- struct{}{}
+			<-release
+		}
+		if m.Header.EndToEndID&cnPanic != 0 {
+			panic("scripted handler panic")
 		}
 	})
 	var ln *memnet.Listener
@@ -259,6 +285,31 @@ func runCN(id int, c *cnCase, via string) cnLine {
 				}
 			}
 			request()
+		case "mp", "mhp": // a good message whose handler panics (mhp: after requesting CloseNotify)
+			nextID++
+			bits := uint32(cnPanic)
+			if ev == "mhp" {
+				bits |= cnAsk
+			}
+			mc.Feed(cnGoodX(nextID, bits))
+			mc.WaitClosed(3 * time.Second)
+			term = true
+		case "heof": // the peer disconnects while a handler is running
+			nextID++
+			mc.Feed(cnGoodX(nextID, cnHold))
+			select {
+			case <-holding:
+			case <-time.After(3 * time.Second):
+			}
+			mc.FeedErr(io.EOF)
+			term = true
+			defer func() {
+				select {
+				case <-release:
+				default:
+					close(release)
+				}
+			}()
 		case "x":
 			lg.add(cnEvent{Ev: "feed", K: "x"})
 			mc.Feed(cnBad())
@@ -303,6 +354,34 @@ func runCN(id int, c *cnCase, via string) cnLine {
 			mc.WaitClosed(3 * time.Second)
 			term = true
 		}
+		var held []bool
+		if ev == "heof" {
+			// while the handler is still running: if the reader has switched to the pipe the copier sees
+			// the peer's close and the channels fire now (bounded wait); then the handler is released
+			deadline := time.Now().Add(300 * time.Millisecond)
+			for time.Now().Before(deadline) {
+				mu.Lock()
+				all := true
+				for _, ch := range chans {
+					if !isClosed(ch) {
+						all = false
+					}
+				}
+				mu.Unlock()
+				if all {
+					break
+				}
+				time.Sleep(500 * time.Microsecond)
+			}
+			mu.Lock()
+			held = []bool{}
+			for _, ch := range chans {
+				held = append(held, isClosed(ch))
+			}
+			mu.Unlock()
+			close(release)
+			mc.WaitClosed(3 * time.Second)
+		}
 		if term {
 			// positive deadline: every channel obtained so far should close promptly
 			deadline := time.Now().Add(600 * time.Millisecond)
@@ -322,7 +401,10 @@ func runCN(id int, c *cnCase, via string) cnLine {
 			}
 		}
 		mu.Lock()
-		st := cnStep{Chans: []bool{}, Delivered: len(delivered), Panic: panicked}
+		st := cnStep{Chans: []bool{}, Delivered: len(delivered), Panic: panicked, Held: []bool{}}
+		if held != nil {
+			st.Held = held
+		}
 		for _, ch := range chans {
 			st.Chans = append(st.Chans, isClosed(ch))
 		}
@@ -407,7 +489,7 @@ func runCNWatchdog(id int, how string) cnLine {
 	// the watchdog goroutine has requested CloseNotify; the harness takes the same channel
 	ch := c.(diam.CloseNotifier).CloseNotify()
 	time.Sleep(60 * time.Millisecond) // let one watchdog round pass
-	l.Steps = append(l.Steps, cnStep{Chans: []bool{isClosed(ch)}, Delivered: 0})
+	l.Steps = append(l.Steps, cnStep{Chans: []bool{isClosed(ch)}, Delivered: 0, Held: []bool{}})
 	switch how {
 	case "eof":
 		mc.FeedErr(io.EOF)
@@ -423,7 +505,7 @@ func runCNWatchdog(id int, how string) cnLine {
 	for time.Now().Before(deadline) && !isClosed(ch) {
 		time.Sleep(time.Millisecond)
 	}
-	l.Steps = append(l.Steps, cnStep{Chans: []bool{isClosed(ch)}, Delivered: 0})
+	l.Steps = append(l.Steps, cnStep{Chans: []bool{isClosed(ch)}, Delivered: 0, Held: []bool{}})
 	close(stop)
 	deadline = time.Now().Add(800 * time.Millisecond)
 	for {
